@@ -1,29 +1,68 @@
 """Contracts for stone/backends/python_rsrc/stone_validators.py (C08)."""
 from pyvc.contract import contract, Ret, Raise, Obj, AnyVal, Lit, OneOf, Int, Bool, Str
 import spec.runtime as S
+import spec.gen as G
 import stone.backends.python_rsrc.stone_validators as bv
 
 M = 'stone.backends.python_rsrc.stone_validators:'
 
 
-@contract(M + 'Boolean.validate', properties=['C08'])
-class Boolean_validate:
-    params = {'self': Obj(bv.Boolean), 'val': AnyVal()}
-
-    def expected(self, val):
-        if S.valid_boolean(val):
-            return Ret(val)
-        return Raise(bv.ValidationError)
-
-
-@contract(M + 'Integer.validate', properties=['C08'])
-class Integer_validate:
-    params = {'self': Obj(bv.Integer, proper=True), 'val': AnyVal()}
+# The abstract method: what a caller that only knows "some validator" may rely
+# on.  Every override below is proved against the same statement, specialised
+# by the class of ``self``.
+@contract(M + 'Validator.validate', properties=[], virtual=True, abstract=True, raises=[bv.ValidationError])
+class Validator_validate:
+    params = {'self': Obj(bv.Validator), 'val': AnyVal()}
 
     def requires(self, val):
-        return S.wf_integer(self)
+        return S.wf(self)
 
     def expected(self, val):
-        if S.valid_int(self, val):
-            return Ret(val)
-        return Raise(bv.ValidationError)
+        return S.validate_outcome(self, val)
+
+
+def _validate_contract(cls, proper=False):
+    @contract(M + cls.__name__ + '.validate', properties=['C08'], raises=[bv.ValidationError])
+    class _C:
+        params = {'self': Obj(cls, proper=proper), 'val': AnyVal()}
+
+        def requires(self, val):
+            return S.wf(self)
+
+        def expected(self, val):
+            return S.validate_outcome(self, val)
+    _C.__name__ = _C.cname = cls.__name__ + '_validate'
+    _C.gen = staticmethod(G.validate_case(cls, proper))
+    return _C
+
+
+Boolean_validate = _validate_contract(bv.Boolean)
+Integer_validate = _validate_contract(bv.Integer, proper=True)
+Real_validate = _validate_contract(bv.Real, proper=True)
+String_validate = _validate_contract(bv.String)
+Bytes_validate = _validate_contract(bv.Bytes)
+Timestamp_validate = _validate_contract(bv.Timestamp)
+Void_validate = _validate_contract(bv.Void)
+Nullable_validate = _validate_contract(bv.Nullable)
+List_validate = _validate_contract(bv.List)
+Map_validate = _validate_contract(bv.Map)
+
+
+# ---------------------------------------------------------------- message helpers
+# Only used to build error messages; what callers rely on is that they return
+# a string and never raise.
+
+@contract(M + 'get_value_string', properties=['C08'])
+class get_value_string_c:
+    params = {'v': AnyVal()}
+
+    def ensures(v, result, exc):
+        return exc is None and isinstance(result, str)
+
+
+@contract(M + 'generic_type_name', properties=['C08'])
+class generic_type_name_c:
+    params = {'v': AnyVal()}
+
+    def ensures(v, result, exc):
+        return exc is None and isinstance(result, str)
